@@ -9,6 +9,10 @@ func verifC02_frame() {
 	t := vNewTransport(nil)
 	t.endMode = vEndBlock
 	c := vNewConn(t, client, vCopts(vParam("deflate", 0)), 16, vParam("bw", 16))
+	// the header scratch space is shared by all frames of the connection: start from an arbitrary previous frame
+	// (representation invariant: masked is only ever set on a client, rsv2/rsv3 are never set)
+	c.writeHeader = header{fin: vBool("prevFin"), rsv1: vBool("prevRsv1"), opcode: opcode(vU8("prevOpcode") & 0x0f),
+		payloadLength: vI64("prevLen"), masked: client, maskKey: vU32("prevKey")}
 	fin := vBool("fin")
 	flate := vBool("flate")
 	op := opcode(vU8("opcode") & 0x0f)
